@@ -205,7 +205,7 @@ def bounded(tier, seed, repo_root):
     triples = [tuple(rnd.choice(types) for _ in range(3)) for _ in range(n3)]
     quads = [tuple(rnd.choice(types) for _ in range(4)) for _ in range(n3 // 4)]
     jobs = colls + triples + quads
-    res = pmap(_check, jobs, repo_root, job_timeout=60, on_timeout=timeout_failure('C17'))
+    res = pmap(_check, jobs, repo_root, job_timeout=20, on_timeout=timeout_failure('C17'))
     fails = [f for fs in res for f in fs]
     return [{
         'name': 'C17.synthetic-bounded-items',
